@@ -192,8 +192,15 @@ def load_known():
         with open(path, encoding="utf-8") as f:
             for line in f:
                 line = line.strip()
-                if line and not line.startswith("#"):
-                    res.append(json.loads(line))
+                if not line or line.startswith("#"):
+                    continue
+                if line.startswith("fixed:"):
+                    m = re.match(r"fixed: property=(\S+) (\S+) (.*?)(?: \[key=(\S+)\])?$", line)
+                    if m:
+                        res.append({"status": "fixed", "property": m.group(1), "commit": m.group(2), "what": m.group(3),
+                                    "key": m.group(4)})
+                    continue
+                res.append(json.loads(line))
     return res
 
 
@@ -584,6 +591,14 @@ def replay(mod, pid, path, known_keys):
         log("replay file names no concrete input (broken obligations: %s)" % obj.get("broken_obligations"))
         return 1
     with BuildLock():
+        # regenerate the tables the driver depends on from the CURRENT source, as a normal run does
+        try:
+            for gen in getattr(mod, "GEN", []):
+                for rel, content in gen().items():
+                    write_if_changed(os.path.join(LEAN, rel), content)
+        except Exception:
+            traceback.print_exc()
+            log("translator failed during replay; evaluating against the tables on disk")
         lake_build(list(getattr(mod, "MODEL_TARGETS", [])) or [mod.LEAN_PROPS])
     recs = evaluate(mod, cases)
     rc = 0
